@@ -562,6 +562,15 @@ class SplineCVPredict(Contract):
 # ------------------------------------------------------------------ bounded: against independently fitted models
 
 
+def _reference_cv(seed):
+    """KFold for even seeds; for odd seeds a splitter whose TRAINING set is NOT the complement of its test set."""
+    from sklearn.model_selection import KFold, ShuffleSplit
+
+    if seed % 2 == 0:
+        return KFold(n_splits=3, shuffle=True, random_state=seed)
+    return ShuffleSplit(n_splits=3, train_size=0.45, test_size=0.3, random_state=seed)
+
+
 def cross_val_reference(kind, coordinates, data, weights, scoring, delayed, seed):
     """Client of the real cross_val_score / train_test_split / SplineCV on real estimators."""
     import warnings
@@ -570,7 +579,7 @@ def cross_val_reference(kind, coordinates, data, weights, scoring, delayed, seed
 
     est = {"trend": verde.Trend(1), "vector": verde.Vector([verde.Trend(1), verde.Trend(0)]), "knn": verde.KNeighbors(k=2)}[kind]
     before = dict(vars(est))
-    cv = KFold(n_splits=3, shuffle=True, random_state=seed)
+    cv = _reference_cv(seed)
     with warnings.catch_warnings():
         warnings.simplefilter("ignore")
         scores = verde.cross_val_score(est, coordinates, data, weights=weights, cv=cv, scoring=scoring, delayed=delayed)
@@ -612,7 +621,7 @@ class CrossValReference(Contract):
         weights = tuple(unwrap(x) for x in _tup(a.weights)) if a.weights is not None else tuple([None] * len(data))
         fn = {None: r2_score, "r2": r2_score, "neg_mean_squared_error": lambda y, p, sample_weight=None: -mean_squared_error(y, p, sample_weight=sample_weight)}[a.scoring]
         want = []
-        for train, test in KFold(n_splits=3, shuffle=True, random_state=a.seed).split(np.transpose(coords)):
+        for train, test in _reference_cv(a.seed).split(np.transpose(coords)):
             with warnings.catch_warnings():
                 warnings.simplefilter("ignore")
                 comps = []
